@@ -214,7 +214,7 @@ Proof.
   destruct (extra s) eqn:Hex.
   2:{ inversion H; subst. exists d. cbn. split; [reflexivity|].
       split; [split; [exact Hnn|split; [|exact Hdead]]|].
-      { intros _. rewrite Hex. split; [exact Hal|]. split; [exact Hdm|]. exact Hiff. }
+      { intros _. cbn. rewrite Hex. split; [exact Hal|]. split; [exact Hdm|]. exact Hiff. }
       split; [discriminate|]. split; [exact Hfr|]. split; [reflexivity|].
       intros Hp. split; [reflexivity|]. apply Hiff. left. exact Hp. }
   assert (Hm : mapped s = true) by (apply Hiff; right; reflexivity).
@@ -401,7 +401,7 @@ Proof.
     cbn [run]. destruct (step s o) as [[s' r] cs] eqn:Es.
     assert (Hokw : op_ok_weak s o = true).
     { unfold op_ok in Hok. unfold op_ok_weak. apply andb_prop in Hok. destruct Hok as [Hf Hok].
-      rewrite Hf. cbn [andb]. destruct o; auto. apply andb_prop in Hok. tauto. }
+      rewrite Hf. cbn [andb]. destruct o; auto. }
     destruct (step_inv _ _ _ _ _ _ HI Hokw Es) as [d' [_ [B _]]].
     pose proof (step_balance _ _ _ _ _ _ _ HI Hok Hb Es) as Hb'.
     specialize (IH s' d' (out_upd out o r) B Hb' Hd).
